@@ -113,7 +113,7 @@ def run_case(spec, ctx):
             for name in ("T_SO3_quat_P", "T_SO3_inv_quat_P"):
                 for q_, nz in ((P, True), (Pu, False), (Pu, True)):
                     thunks.append((name, {"function": name, "P": q_, "normalize": nz}, (lambda f=getattr(R, name), a=q_, z=nz: f(a.copy(), normalize=z))))
-        purity_check(ctx, rng, thunks, mon="purity")
+        purity_check(ctx, rng, thunks, mon="purity", scribble=True)
         ctx.cls("kind:purity")
         ctx.sig([kind, first], nontrivial=True)
         ctx.sample({"kind": kind, "calls": len(thunks)})
